@@ -57,8 +57,8 @@ Record field := mkF {
                                 return annotation.  The member then is what the function returns *)
   f_tv : bool;               (* the field is declared as a bare type variable of a generic dataclass (`x: T`); f_ty is what
                                 the variable is bound to in this specialisation (TAny for the unspecialised class).  The
-                                serializer and `required` (is_field_nullable, since /repo 4da7e9e) work with f_ty, the JSON
-                                Schema of the field is the empty schema: Instance.derive does not substitute a bare variable *)
+                                serializer, `required` (is_field_nullable, since /repo 4da7e9e) and the JSON Schema of the
+                                field work with f_ty (Instance.derive substitutes with the bindings of the owning class) *)
 }.
 Record cls := mkC { c_id : string; c_name : string (* bare __name__ *); c_fields : list field;
                     c_ntd : bool     (* Config / Config.dialect namedtuple_as_dict *);
@@ -135,8 +135,7 @@ Definition nullable (t: ty) : bool :=
 Definition fnullable (f: field) : bool := nullable (f_ty f) || f_dnone f.
 
 (* the type the JSON Schema describes for the field (on_type_with_overridden_serialization, the first creator) *)
-Definition f_sty (f: field) : ty :=
-  match f_ser f with Some rt => rt | None => if f_tv f then TAny else f_ty f end.
+Definition f_sty (f: field) : ty := match f_ser f with Some rt => rt | None => f_ty f end.
 
 (* is the field listed in `required` (kernel K6R): no default, and not droppable under omit_none *)
 Definition frequired (omit: bool) (f: field) : bool := negb (f_has_default f) && negb (omit && fnullable f).
